@@ -19,6 +19,11 @@ py_truthy = z3.Function('py_truthy', Ref, Int, Bool)
 py_call = z3.Function('py_call_result', Ref, Int, Ref)
 
 
+class PyMethod:
+    def __init__(self, obj, name):
+        self.obj, self.name = obj, name
+
+
 def U():
     from .symex import Unsupported
     return Unsupported
@@ -389,6 +394,9 @@ def py_model(eng, st, name, A, n):
         return [(st, PyObj(M.py_item(o.ref, i), stable=getattr(o, 'stable', False)))]
     if name in ('DictGetItem', 'DictGetItemAs'):
         d, k = P(0), P(1)
+        hook = getattr(eng.cur_contract, 'dict_get_item', None)
+        if hook and d.fresh:
+            return [(st, hook(eng, st, d, k, n))]
         eng.may_call_python(st, 'key __hash__/__eq__ (dict lookup)', line) if not d.fresh else None
         summ = eng.helper_summary('DictGetItemAs')
         has = dict_has_at(d.ref, k.ref, z3.IntVal(st.ghost['epoch'])) if not d.fresh else z3.BoolVal(True)
@@ -432,6 +440,11 @@ def py_model(eng, st, name, A, n):
         raise Unsupported(f'{name}({v!r})')
     if name == 'none':
         return [(st, PyObj(PYNONE, stable=True))]
+    if name.startswith('Py_ID_'):
+        return [(st, Opaque('pyid:' + name[6:]))]
+    if name in ('getattr',) and len(A) > 1 and isinstance(A[1], Opaque) and A[1].tag == 'pyid:copy':
+        # list.copy bound method of an engine-owned / fresh list
+        return [(st, Opaque('list.copy'), )] if False else [(st, PyMethod(P(0), 'copy'))]
     if name in ('getattr',):
         eng.may_call_python(st, 'getattr', line)
         s_exc = st.clone()
@@ -453,7 +466,8 @@ def py_model(eng, st, name, A, n):
         if tc == 'bool':
             return [(st, py_truthy(o.ref, z3.IntVal(st.ghost['epoch'])))]
         if tc == 'int':
-            return [(st, z3.Function('py_as_int', Ref, Int)(o.ref))]
+            return [(st, z3.Function('py_as_int', Ref, Int)(o.ref))] if not o.stable else \
+                [(st, z3.Function('py_as_int', Ref, Int)(o.ref))]
         if tc == 'str':
             return [(st, z3.Function('py_as_str', Ref, Str)(o.ref))]
         if tc == 'py':
@@ -487,6 +501,24 @@ def py_model(eng, st, name, A, n):
         if hook:
             hook(eng, st, A, n)
             return [(st, None)]
+    if name == 'TotalOrderSort':
+        o = P(0)
+        # mutating primitive (list.sort in place): class IV - only engine-fresh lists may be sorted (C14 F1)
+        eng.oblige(st, 'IV', 'F1:TotalOrderSort:target-is-fresh', z3.BoolVal(bool(o.fresh)), line)
+        eng.may_call_python(st, 'key __lt__ (sort)', line)
+        s_exc = st.clone()
+        eng.throw(s_exc, 'pybind11::error_already_set', line, 'from key __lt__')
+        return [(st, None)]
+    if name == 'DictKeysEqual':
+        eng.may_call_python(st, 'key __hash__/__eq__ (DictKeysEqual)', line)
+        s_exc = st.clone()
+        eng.throw(s_exc, 'pybind11::error_already_set', line, 'from key __hash__/__eq__')
+        return [(st, z3.Function('dict_keys_equal', Ref, Ref, Bool)(P(0).ref, P(1).ref))]
+    if name == 'DictKeysDifference':
+        eng.may_call_python(st, 'key __hash__/__eq__/__lt__ (DictKeysDifference)', line)
+        s_exc = st.clone()
+        eng.throw(s_exc, 'pybind11::error_already_set', line, 'from key methods')
+        return [(st, Tup((PyObj(fresh('missing_keys', Ref), fresh=True), PyObj(fresh('extra_keys', Ref), fresh=True))))]
     if name.startswith('AssertExact'):
         o = P(0)
         ok = z3.Function('is_exact_' + name[len('AssertExact'):], Ref, Bool)(o.ref)
@@ -736,6 +768,16 @@ def operator_call(eng, n, st):
             f = vals[0]
             if isinstance(f, Lam):
                 raise Unsupported('indirect lambda call')
+            if isinstance(f, PyMethod) and f.name == 'copy':
+                src = f.obj
+                r = fresh('list_copy', Ref)
+                s.pc.append(r != NULL)
+                if src.fresh or src.stable:
+                    s.pc.append(M.py_len(r) == M.py_len(src.ref))
+                else:
+                    eng.may_call_python(s, 'copy() of a user-reachable object', line)
+                outs.append((s, PyObj(r, fresh=True)))
+                continue
             if isinstance(f, PyObj) or (z3.is_expr(f) and f.sort() == Ref):
                 outs += python_call(eng, s, f if isinstance(f, PyObj) else PyObj(f), vals[1:], n)
             else:
@@ -958,6 +1000,8 @@ def construct(eng, n, st):
                 outs.append((s, PyObj(NULL)))
             elif len(vals) == 1 and isinstance(vals[0], Ptr) and vals[0].oid is None:
                 outs.append((s, PyObj(NULL)))
+            elif len(vals) == 1 and isinstance(vals[0], Opaque) and vals[0].tag.startswith('pyid:'):
+                outs.append((s, vals[0]))          # interned attribute name
             elif short == 'cpp_function':
                 outs.append((s, PyObj(fresh('cpp_function', Ref), fresh=True)))
             else:
